@@ -84,10 +84,11 @@ BOUNDARY = {
 
 
 class Flags:
-    def __init__(self, no_ops=(), guards=(), no_features=()):
+    def __init__(self, no_ops=(), guards=(), no_features=(), extras=()):
         self.no_ops = set(no_ops)
         self.guards = set(guards)
         self.no_features = set(no_features)
+        self.extras = set(extras)  # opt-in shapes: "limit_edges" (memory / table limits 0, min == max, 65536)
 
     def has(self, feature):
         return feature not in self.no_features
@@ -583,8 +584,11 @@ def cases(draw, flags=None, max_funcs=4, fuel=40, depth=5, ncalls=4):
     # memory, data
     if flags.has("memory") and draw(st.integers(0, 4)) > 0:
         desc["mem"] = {"min": draw(st.sampled_from([1, 1, 1, 2])), "max": draw(st.sampled_from([None, None, 2, 3]))}
+        if "limit_edges" in flags.extras and draw(st.integers(0, 3)) == 0:
+            mn = draw(st.sampled_from([0, 0, 1, 2]))
+            desc["mem"] = {"min": mn, "max": draw(st.sampled_from([mn, mn, mn + 1, 65536, None]))}
         mod.mem = desc["mem"]
-        if flags.has("data"):
+        if flags.has("data") and desc["mem"]["min"] > 0:
             for _ in range(draw(st.integers(0, 2))):
                 off = draw(st.sampled_from([0, 1, 8, 60, 250, 65530]))
                 n = draw(st.integers(0, 6))
@@ -615,9 +619,13 @@ def cases(draw, flags=None, max_funcs=4, fuel=40, depth=5, ncalls=4):
         tmin = draw(st.integers(1, 6))
         desc["table"] = {"min": tmin, "max": draw(st.sampled_from([None, tmin, tmin + 2]))}
         mod.table_group = draw(st.integers(1, nf - 1))
+    elif "limit_edges" in flags.extras and flags.has("table") and draw(st.integers(0, 5)) == 0:
+        # an empty table with explicit limits (no element segment, no call_indirect target)
+        desc["table"] = {"min": 0, "max": draw(st.sampled_from([0, 0, 1, None]))}
+        mod.table_group = 0
     for k in range(nf):
         desc["funcs"].append({"type": type_index(sigs[k]), "locals": [], "body": []})
-    if desc["table"]:
+    if desc["table"] and desc["table"]["min"] > 0:
         cand = (list(range(mod.nfi)) if flags.has("elem_imports") else []) + [mod.nfi + k for k in range(mod.table_group)]
         pos = 0
         for _ in range(draw(st.integers(1, 2))):
